@@ -81,6 +81,7 @@ type runState struct {
 	obsSeq       []uint64   // per graph: first fired foreign receive on the goroutine that called Run
 	dfs          [][]string
 	dfsErr       []error
+	innerRunning bool   // the inner graph's Run (Scenario.Inner) has been called and has not returned
 	again        bool   // the Run being judged is a repetition on an unchanged graph
 	lockProbe    string // the Task the post-run lock probe is waiting for ("" = not probing)
 	cancelSeq    uint64 // first cancel() issued
@@ -122,7 +123,17 @@ func (r *runState) limit() int {
 }
 
 func isSkip(res string) bool { return res == "skip" || res == "skipw" }
-func isErr(res string) bool  { return res == "err" || res == "errs0" || res == "errs1" }
+func isErr(res string) bool {
+	return res == "err" || res == "errs0" || res == "errs1" || res == "errctx"
+}
+
+// ctxLikeErr is what a task returns when its own, private timeout expired: it wraps
+// context.DeadlineExceeded and is identified by the task's sentinel.
+type ctxLikeErr struct{ sentinel error }
+
+func (e ctxLikeErr) Error() string        { return "task-local timeout: " + context.DeadlineExceeded.Error() }
+func (e ctxLikeErr) Unwrap() error        { return context.DeadlineExceeded }
+func (e ctxLikeErr) Is(target error) bool { return target == e.sentinel }
 
 // attemptSpec is the behaviour of attempt k of task i when it runs in graph g.
 func (r *runState) attemptSpec(g, i, k int) AttemptSpec {
@@ -505,6 +516,9 @@ func (r *runState) taskFn(i, alt int, cancel context.CancelFunc) getoptions.Comm
 				simrt.Unlock()
 			}
 		}
+		if in := sc.Inner; in != nil && in.Host == i && k == 0 && g == 0 {
+			r.runInner(ctx, in)
+		}
 		if a.Dur >= 40 {
 			simrt.Lock()
 			r.res.Faults["stall_task"]++
@@ -537,6 +551,14 @@ func (r *runState) taskFn(i, alt int, cancel context.CancelFunc) getoptions.Comm
 				}
 			}
 			return r.errsVal[i]
+		case "errctx":
+			if k >= R {
+				r.res.Faults["task_error_wraps_context_error"]++
+				if r.failSeq == 0 {
+					r.failSeq = xseq
+				}
+			}
+			return fmt.Errorf("attempt %d of t%02d: %w", k+1, i, ctxLikeErr{r.sents[i]})
 		case "err":
 			if k >= R {
 				r.res.Faults["task_error"]++
@@ -851,6 +873,44 @@ func (r *runState) onSettled(gname string) {
 
 func name2run(g int) string { return fmt.Sprintf("run:g%d", g) }
 
+// runInner: a task of the outer graph builds and runs its own graph with the context it was given.
+// The inner graph has its own limit; what the outer graph does with the context must not leak in.
+func (r *runState) runInner(ctx context.Context, in *InnerSpec) {
+	ig := dag.NewGraph("inner")
+	ig.TickerDuration = r.unit // the tick currently in force for the outer graph (durations are expressed in ticks)
+	ig.SetMaxParallel(in.MaxPar)
+	executing := 0
+	for j := 0; j < in.N; j++ {
+		j := j
+		ig.AddTask(dag.NewTask(fmt.Sprintf("inner%02d", j), func(context.Context, *getoptions.GetOpt, []string) error {
+			simrt.Lock()
+			executing++
+			seq := simrt.Note("inner-entry", fmt.Sprint(j))
+			if executing > in.MaxPar {
+				r.fail("C15", "O15a", seq, "inner graph (run by a task of g0 with the context it was given): %d task functions executing at once under SetMaxParallel(%d)", executing, in.MaxPar)
+			}
+			simrt.Unlock()
+			simrt.EnvSleep(time.Duration(1+j%2) * r.unit)
+			simrt.Lock()
+			executing--
+			simrt.Note("inner-exit", fmt.Sprint(j))
+			simrt.Unlock()
+			return nil
+		}))
+	}
+	simrt.Lock()
+	r.res.Faults["nested_graph_run"]++
+	r.innerRunning = true
+	simrt.Unlock()
+	err := ig.Run(ctx, nil, []string{"inner"})
+	simrt.Lock()
+	r.innerRunning = false
+	if err != nil && r.cancelSeq == 0 {
+		r.fail("C14", "O14c", simrt.Note("inner-return", ""), "inner graph of successful tasks, no cancellation: Run returned %v", err)
+	}
+	simrt.Unlock()
+}
+
 // id is the task ID handed to the library for task i (messages of the harness always say tNN).
 func (r *runState) id(i int) string {
 	switch r.sc.IDScheme {
@@ -918,8 +978,11 @@ func (r *runState) posthoc() {
 	switch res.Verdict {
 	case simrt.VDeadlock, simrt.VLivelock:
 		if !allReturned {
+			if r.innerRunning {
+				r.fail("C16", "O16a", res.Seq, "Run of the inner graph (started by a task of g0 with the context it was given) never returns: %s", res.Verdict)
+			}
 			for g := 0; g < r.ng; g++ {
-				if !r.returned[g] {
+				if !r.returned[g] && !r.innerRunning {
 					r.fail("C16", "O16a", res.Seq, "Run of g%d never returns: %s (every started task function had returned=%v; waiting: %s)", g, res.Verdict, r.noneExecuting(), strings.Join(res.Unfinished, ","))
 				}
 			}
